@@ -47,7 +47,8 @@ static void on_conn(void* p, CS104_Connection c, CS104_ConnectionEvent ev)
 static void summary(void)
 {
     if (!con) { fprintf(impl, " | none"); return; }
-    fprintf(impl, " | run=%d fail=%d cs=%d vs=%d vr=%d un=%d rb=%d win=", con->running, con->failure, con->conState, con->sendCount, con->receiveCount, con->unconfirmedReceivedIMessages, con->recvBufPos);
+    char lc[32]; if (con->timeoutT2Trigger) sprintf(lc, "%llu", (unsigned long long) con->lastConfirmationTime); else strcpy(lc, "-");
+    fprintf(impl, " | run=%d fail=%d cs=%d vs=%d vr=%d un=%d rb=%d t2=%s win=", con->running, con->failure, con->conState, con->sendCount, con->receiveCount, con->unconfirmedReceivedIMessages, con->recvBufPos, lc);
     int cnt = 0;
     if (con->sentASDUs == NULL || con->oldestSentASDU == -1) fprintf(impl, "-");
     else { int j = con->oldestSentASDU; for (;;) { cnt++; fprintf(impl, "%s%d", j == con->oldestSentASDU ? "" : ",", con->sentASDUs[j].seqNo); if (j == con->newestSentASDU || cnt > 40000) break; j = (j + 1) % con->maxSentASDUs; } }
@@ -56,8 +57,10 @@ static void summary(void)
 static void flush_obs(void) { fprintf(impl, "%s", loglen ? logbuf : "-"); loglen = 0; logbuf[0] = 0; summary(); fprintf(impl, "\n"); }
 static int cur_task(void) { return sim_last_task; }
 
+static int cfg_t2; static uint64_t first_unacked_at;
 static void op_new(int k, int w, int t0, int t1, int t2, int t3, int scot, int sca)
 {
+    cfg_t2 = t2; first_unacked_at = 0;
     if (con) { CS104_Connection_destroy(con); con = NULL; }
     /* C18 accounting: everything the previous connection object allocated has been freed */
     if (mem_live != 0 && !life_fail++) snprintf(life_info, sizeof life_info, "at ops-file offset %ld: %ld allocations of the library are still live after CS104_Connection_destroy (allocs %ld, frees %ld): resources not released", (long) ftell(ops), mem_live, mem_allocs, mem_frees);
@@ -72,7 +75,21 @@ static void op_new(int k, int w, int t0, int t1, int t2, int t3, int scot, int s
     fprintf(impl, "ok\n");
 }
 static void op_connect(int ok) { fprintf(ops, "c.connect %d\n", ok); fflush(ops); sim_connect_result = ok; opened_seen = end_seen = 0; attempts++; next_ns = 0; CS104_Connection_connectAsync(con); flush_obs(); }
-static void op_step(void) { fprintf(ops, "c.step\n"); fflush(ops); n_steps++; sim_task_step(cur_task()); flush_obs(); }
+/* model-free oracle C11 (client): received I-frames are acknowledged no later than t2 after the first unacknowledged one
+ * (checked once the connection thread has had several turns at the current clock value) */
+static int t2_fail = 0; static char t2_info[300]; static uint64_t first_unacked_at = 0, last_clock = 0; static int steps_at_clock = 0, cfg_t2 = 0;
+static void op_step(void)
+{
+    fprintf(ops, "c.step\n"); fflush(ops); n_steps++;
+    int un0 = con->running ? con->unconfirmedReceivedIMessages : 0;
+    sim_task_step(cur_task());
+    int un1 = con->running ? con->unconfirmedReceivedIMessages : 0; uint64_t now = sim_time();
+    if (now != last_clock) { last_clock = now; steps_at_clock = 0; } steps_at_clock++;
+    if (un1 == 0 || un1 < un0) first_unacked_at = 0; if (un0 == 0 && un1 > 0) first_unacked_at = now; if (un1 > 0 && first_unacked_at == 0) first_unacked_at = now;
+    if (con->running && un1 > 0 && first_unacked_at && cfg_t2 && now > first_unacked_at + (uint64_t) cfg_t2 * 1000 && steps_at_clock >= 8 && !t2_fail++)
+        snprintf(t2_info, sizeof t2_info, "client at ops-file offset %ld: %d received I-frames unacknowledged for %llu ms, t2 = %d s, and the connection thread has run %d times since", (long) ftell(ops), un1, (unsigned long long) (now - first_unacked_at), cfg_t2, steps_at_clock);
+    flush_obs();
+}
 static void op_rx(const uint8_t* b, int n) { static char hx[1200]; hexs(hx, b, n); fprintf(ops, "c.rx %s\n", hx); fflush(ops); if (sim_last_client_socket && sim_last_client_socket->open) sim_feed(sim_last_client_socket, b, n); fprintf(impl, "ok\n"); }
 static void op_peerclose(void) { fprintf(ops, "c.peerclose\n"); fflush(ops); if (sim_last_client_socket) sim_peer_close(sim_last_client_socket); fprintf(impl, "ok\n"); }
 static void op_wfail(int v) { fprintf(ops, "c.wfail %d\n", v); fflush(ops); if (sim_last_client_socket) sim_last_client_socket->write_fail = v; fprintf(impl, "ok\n"); }
@@ -155,6 +172,7 @@ int main(int argc, char** argv)
     if (wire_fail) printf("WIRE_FAIL %s\n", wire_info);
     if (kwin_fail) printf("KWIN_FAIL %s\n", kwin_info);
     if (life_fail) printf("LIFE_FAIL %s\n", life_info);
+    if (t2_fail) printf("T2_FAIL %s\n", t2_info);
     printf("HISTO role=client wire_violations=%d kwin_violations=%d life_violations=%d tx=%ld asdu_callbacks=%ld events=%ld thread_steps=%ld sends=%ld refused=%ld attempts=%d sem_max=%d sem_violations=%d deadlock=%d live_sem=%d live_threads=%d\n",
         wire_fail, kwin_fail, life_fail, n_tx, n_asdu, n_ev, n_steps, n_sends, n_send_refused, attempts, sim_sem_max_value, sim_sem_violations, sim_deadlock, sim_live_semaphores, sim_live_threads);
     return 0;
